@@ -91,12 +91,18 @@ class GaussianMixture:
         best_params = None
         best_lower_bound = -np.inf
 
+        # Seeded fits draw from a private generator (same stream as seeding
+        # the global one) so the process-wide random state is left untouched
         if self.random_state is not None:
-            np.random.seed(self.random_state)
+            rng = np.random.RandomState(self.random_state)
+        else:
+            rng = np.random
 
         for init in range(self.n_init):
             # Initialize parameters
-            weights, means, covariances = self._initialize_parameters(X, sample_weight)
+            weights, means, covariances = self._initialize_parameters(
+                X, sample_weight, rng
+            )
 
             # EM iterations
             lower_bound = -np.inf
@@ -132,8 +138,10 @@ class GaussianMixture:
 
         return self
 
-    def _initialize_parameters(self, X, sample_weight):
+    def _initialize_parameters(self, X, sample_weight, rng=None):
         """Initialize GMM parameters using weighted k-means++."""
+        if rng is None:
+            rng = np.random
         n_samples, n_features = X.shape
 
         # Initialize means using weighted k-means++
@@ -141,7 +149,7 @@ class GaussianMixture:
 
         # First center: weighted random sample
         cumsum = np.cumsum(sample_weight)
-        r = np.random.rand() * cumsum[-1]
+        r = rng.rand() * cumsum[-1]
         means[0] = X[np.searchsorted(cumsum, r)]
 
         # Remaining centers
@@ -154,7 +162,7 @@ class GaussianMixture:
             probabilities /= np.sum(probabilities)
 
             cumsum = np.cumsum(probabilities)
-            r = np.random.rand() * cumsum[-1]
+            r = rng.rand() * cumsum[-1]
             means[k] = X[np.searchsorted(cumsum, r)]
 
         # Initialize responsibilities and compute initial parameters
